@@ -79,6 +79,7 @@ class Run(object):
         self.monitored = {}
         self.selftest = None
         self.lemmas_checked = set()
+        self.cross = {}
         self.monitor_failures = {}
         self.replay_dir = os.path.join(ROOT, 'replay')
         os.makedirs(self.replay_dir, exist_ok=True)
@@ -129,7 +130,13 @@ class Run(object):
                 all_vcs.append(vc)
                 owner.append('lemma::' + name)
         t = time.time()
-        results = solve.discharge(all_vcs, timeout_s=timeout_s, theory=lib.theory, fuel=fuel)
+        results = solve.discharge(all_vcs, timeout_s=timeout_s, theory=lib.theory, fuel=fuel, cross=(self.tier == 'thorough'))
+        for vc, r in zip(all_vcs, results):
+            cr = r.get('cross')
+            if cr is not None:
+                self.cross[cr if cr in ('unsat', 'sat') else 'unknown'] = self.cross.get(cr if cr in ('unsat', 'sat') else 'unknown', 0) + 1
+                if cr == 'sat':
+                    self.checker_errors.append('solver disagreement on %s: z3 5.1 unsat, z3 4.8.12 sat' % vc.oid)
         obl = driver.aggregate(all_vcs, results)
         own = {}
         for vc, o in zip(all_vcs, owner):
@@ -346,6 +353,7 @@ class Run(object):
                 'functions_under_contract': self.functions,
                 'runtime_monitor': self.monitored,
                 'generator_selftest': self.selftest,
+                'second_backend_crosscheck': self.cross,
                 'undischarged': sorted(o for o, r in self.obligations.items() if not r['discharged']),
                 'evaluations': max(cases + n_obl, 1),
                 'distinct_nontrivial': max(nontriv + n_dis, 0),
